@@ -169,7 +169,11 @@ class CostCase:
         """op = [raw(0/1), field, vid or None].  Returns exception tag or None."""
         raw, f, vid = op
         try:
-            if f == 'merge':
+            if f == 'reseat':
+                # the cost body is replaced by an equal, freshly built one through the public raw_cost setter: nothing a
+                # value property reads may depend on which object holds the components
+                self.cost.raw_cost = copy.deepcopy(self.cost.raw_cost)
+            elif f == 'merge':
                 if raw:
                     self.cost.raw_asterisk = models.Asterisk.from_default() if vid else None
                 else:
@@ -194,6 +198,8 @@ class CostCase:
 def rec_apply(rec, op):
     """The record-of-optionals: returns (new record, rejected?)."""
     raw, f, vid = op
+    if f == 'reseat':
+        return rec, False
     new = dict(rec)
     new[f] = bool(vid) if f == 'merge' else (None if vid is None else DOM[f][vid])
     if new['per'] is not None and new['tot'] is not None and new['cur'] is None:
@@ -225,6 +231,10 @@ def cost_oracle(case: CostCase, op, err, text_before, g):
     if err is not None:
         return (f'C09:cost:spurious-rejection:{f}:{lvl}', f'{err} although the record update {new} is admissible')
     case.rec = new
+    if f == 'reseat':
+        if g != new or case.text() != text_before:
+            return ('C09:cost:reseat-changed', f'after raw_cost = deepcopy(raw_cost): getters {g} vs record {new}, text {text_before!r} -> {case.text()!r}')
+        return None
     if g[f] != new[f]:
         return (f'C09:cost:read-back:{f}:{lvl}', f'{PROP[f]} reads {g[f]!r} after assigning {new[f]!r}')
     if g != new:
@@ -281,12 +291,14 @@ def run_cost_sequence(ctx, form, attached, ops, batches, check_from=0):
                             f'{type(e).__name__}: {e}', rep)
             return rep
         if not full:
-            lines.append((op_line(op), None))
+            if op[1] != 'reseat':
+                lines.append((op_line(op), None))
             case.rec, _ = rec_apply(case.rec, op)
             continue
         g = case.getters()
         dump = case.dump(g)
-        lines.append((op_line(op), ('ok ' if err is None else f'err {err} ') + dump))
+        if op[1] != 'reseat':   # no model step: the model's state is the component list, which the reseat leaves as it is
+            lines.append((op_line(op), ('ok ' if err is None else f'err {err} ') + dump))
         bad = cost_oracle(case, op, err, before, g)
         vk = 'none' if op[2] is None else 'some'
         ctx.count(f'cost:{op[1]}:{"raw" if op[0] else "val"}:{"err" if err else "ok"}')
@@ -433,7 +445,7 @@ def run_cost(ctx, batches, with_random=True, budget_scale=1):
     if with_random:
         for _ in range(ctx.scale(300, 10000) * budget_scale):
             form = random_form(rng)
-            ops = [rng.choice(full) for _ in range(8)]
+            ops = [rng.choice(full) if rng.random() > 0.12 else (2, 'reseat', None) for _ in range(8)]
             if run_cost_sequence(ctx, form, rng.random() < 0.5, ops, batches):
                 return
             nseq += 1
